@@ -28,14 +28,16 @@ raises UNSUPPORTED file:line):
   8. `memset(&rthread, 0, sizeof(rthread))` (exactly this shape) -> `zero_rthread`; `strcpy(rproc.f, src)` -> `strcpy_rproc_f`;
      `bool ok = atomic_compare_exchange_strong(&rproc.f, &local, v)` -> `bind (cas_rproc_f local v)` binding the flag and the
      value seen; `atomic_store(&rproc.f, v)` -> `set_rproc_f`; `die(..)` as a statement (else-if chains) -> `fail E_DIE`;
-     conversions between pointer types the prelude identifies (void * / uint8_t *) are dropped.
+     conversions between pointer types the prelude identifies (void * / uint8_t *) are dropped;
+ 10. `struct ovni_ev x = {0}, y = {0};` (all-zero initialiser lists only) -> `ev_local_zero`; `&x` of such a local handed to
+     the event-buffer calls of ovni_flush (ovni_ev_set_clock / set_mcv / ovni_ev_add, flush_evbuf, ovni_clock_now:
+     primitives outside the metadata state, unit rtbuf) -> `(ev_local_ref x)`.
   9. set_thread_cpus (a `for` loop over the DL list building a JSON array) is NOT rendered statement by statement: the unit
      accepts it only in the exact counted shape described at _loop_function and renders it as the fold
      `array_of_list_loop meta "ovni.loom_cpus" <list> [("index", field index); ("phyid", field phyid)]`: the key, the member
      names, their order and the field behind each come from the source; what the parson calls inside the loop do (fresh
      object, json_object_set_number = set_value, append in order) is the meaning of that primitive in RtMetaPre.v.
 Not translated (the construct that stops the subset):
-  - ovni_proc_fini: atomic_compare_exchange_strong + try_clean_dir only: nothing of the metadata state but rproc.st;
   - ovni_mark_type / ovni_mark_label: `cond ? "stack" : "single"` on strings and `title[0] == '\\0'` (char subscripts).
 """
 import importlib.util
@@ -52,7 +54,7 @@ FUNCS = os.environ.get(
     "set_thread_rank:proc,set_thread_cpus:proc,ovni_add_cpu:proc,ovni_proc_set_rank:proc,get_thread_metadata:alloc,"
     "ovni_attr_has:mval,ovni_attr_set_double:proc,ovni_attr_get_double:mval,ovni_attr_get_boolean:mval,"
     "ovni_attr_set_boolean:proc,ovni_attr_set_str:proc,ovni_attr_get_str:mval,ovni_attr_set_json:proc,"
-    "ovni_attr_get_json:mval,ovni_attr_flush:proc,ovni_thread_free:proc,ovni_thread_init:proc,ovni_proc_init:proc").split(",")
+    "ovni_attr_get_json:mval,ovni_attr_flush:proc,ovni_thread_free:proc,ovni_thread_init:proc,ovni_proc_init:proc,ovni_proc_fini:proc,ovni_flush:proc").split(",")
 UNITS = [("src/rt/ovni.c", [tuple(f.split(":")) for f in FUNCS])]
 
 GLOBALS = {"rthread", "rproc"}
@@ -156,6 +158,12 @@ def _e_val(self, n, env):
             and S.PTR[S._norm_ptr(S._qt(n))][0] == S.PTR[S._norm_ptr(S._qt(n["inner"][0]))][0]:
         # conversion between two pointer types the prelude does not distinguish (void * <-> uint8_t *)
         return self.e_val(n["inner"][0], env)
+    if k == "UnaryOperator" and n.get("opcode") == "&":
+        t = S._strip(n["inner"][0])
+        if t.get("kind") == "DeclRefExpr" and t.get("referencedDecl", {}).get("kind") == "VarDecl" and \
+                env.get(t["referencedDecl"]["name"], {}).get("zstruct"):
+            # address of a zero-initialised local struct handed to foreign calls (the event being built: unit rtbuf)
+            return S.Val("(%s_ref %s)" % (env[t["referencedDecl"]["name"]]["zstruct"], self.var(t, env)["g"]))
     if k == "AtomicExpr":
         inner = [c for c in n.get("inner", []) if isinstance(c, dict)]
         a = S._strip(inner[0]) if inner else {}
@@ -229,6 +237,31 @@ def _stmts(self, ss, env, kind):
         v = self.e_val(r, env)
         self.gtype(r)
         return self.needed(v.safe, "(eval %s)" % self.fn_of_state(v.t))
+    # ---- struct T x = {0} [, y = {0}] : zero-initialised by-value struct locals
+    if k == "DeclStmt" and s["inner"] and all(v.get("kind") == "VarDecl" and S._norm_struct(S._qt(v)) in S.STRUCTS for v in s["inner"]):
+        def all_zero(x):
+            kk = x.get("kind")
+            if kk == "ImplicitValueInitExpr":
+                return True
+            if kk == "IntegerLiteral":
+                return x.get("value") == "0"
+            if kk in ("InitListExpr", "ImplicitCastExpr"):
+                return all(all_zero(c) for c in x.get("inner", []) if isinstance(c, dict))
+            return False
+        env2 = dict(env)
+        names = []
+        for v in s["inner"]:
+            ini = [c for c in v.get("inner", []) if c.get("kind") != "FullComment"]
+            if len(ini) != 1 or ini[0].get("kind") != "InitListExpr" or not all_zero(ini[0]):
+                self.bad(v, "struct local that is not initialised with {0}")
+            ty = S.STRUCTS[S._norm_struct(S._qt(v))]
+            g = self.gname(v["name"])
+            env2[v["name"]] = {"g": g, "cty": S._qt(v), "init": True, "zstruct": ty}
+            names.append((g, ty))
+        body_t = self.stmts(rest, env2, kind)
+        for g, ty in reversed(names):
+            body_t = "bind (eval (fun sx st => %s_zero)) (fun %s =>\n%s)" % (ty, g, body_t)
+        return body_t
     # ---- local arrays; malloc; snprintf as an initialiser
     if k == "DeclStmt" and len(s["inner"]) == 1 and s["inner"][0].get("kind") == "VarDecl":
         v = s["inner"][0]
@@ -577,18 +610,20 @@ def gen(work):
         "struct ovni_rcpu *": ("ptr_rcpu", True),
         "uint8_t *": ("ptr_bytes", True),
         "void *": ("ptr_bytes", True),
+        "struct ovni_ev *": ("ptr_ev", True),
     }
-    S.STRUCTS = {}
+    S.STRUCTS = {"struct ovni_ev": "ev_local"}
     S.NONNULL_LINK = set()
     S.PRIM_ACTION = {"json_object_dotset_number", "json_object_dotset_string", "json_object_dotset_boolean",
                      "json_object_dotset_value", "json_serialize_to_file_pretty"}
     S.PRIM_VALUE = {"json_value_get_object", "json_object_dotget_value", "json_value_get_type", "json_value_get_number",
                     "json_value_get_boolean", "json_value_get_string", "json_value_init_object", "json_parse_string",
-                    "json_serialize_to_string", "strlen", "strpbrk", "malloc"}
+                    "json_serialize_to_string", "strlen", "strpbrk", "malloc", "ovni_clock_now"}
     S.PRIM_ALLOC = set()
     # calls whose effect is outside the metadata state (event buffer, file descriptors, relocation): identity in RtMetaPre.v
     S.PRIM_PROC = {"free", "close", "move_thdir_to_final", "try_clean_dir",
-                   "create_thread_dir", "create_trace_stream", "write_stream_header", "create_proc_dir"}
+                   "create_thread_dir", "create_trace_stream", "write_stream_header", "create_proc_dir",
+                   "ovni_ev_set_clock", "ovni_ev_set_mcv", "flush_evbuf", "ovni_ev_add"}
     S.OUT_ACTION = {}
     S.BYREF_READ = set()
     S.INDIRECT_CALLS = {}
